@@ -192,11 +192,6 @@ class DomainParser:
         functions = {}
         for function_items in functions_ast:
             function_name = function_items[0]
-            if (len(function_items[1:]) % 3) != 0:
-                raise SyntaxError(
-                    f"Received a function with a wrong signature - {function_items[1:]}"
-                )
-
             signature_items = iter(function_items[1:])
             function_signature = parse_signature(signature_items, domain_types)
             functions[function_name] = PDDLFunction(
